@@ -19,12 +19,18 @@ RELA_ENTRY == 24         \* size_of::<Elf64Rela>()
 IsRelative(e) == e.info = R_RELATIVE
 RelaTargets(rela) == {k \in 1..Len(rela) : IsRelative(rela[k])}
 RelTargets(rel) == {k \in 1..Len(rel) : IsRelative(rel[k])}
+\* The two kinds of entry differ in WHERE the addend lives, and therefore in what happens to the place:
+\*   REL  (implicit addend): the addend is the link-time content of the place  -> the place is ADDED to:  place + base
+\*   RELA (explicit addend): the addend is in the entry                        -> the place is OVERWRITTEN: base + addend,
+\*        whatever the place held before (zero in default links, the addend itself with `--apply-dynamic-relocs`)
+RelApplied(place, base) == place + base
+RelaApplied(place, base, addend) == base + addend
 Relocated(mem, base, rel, rela) ==
     [w \in DOMAIN mem |->
         IF \E k \in RelaTargets(rela) : rela[k].off = w
-        THEN base + rela[CHOOSE k \in RelaTargets(rela) : rela[k].off = w].addend
+        THEN RelaApplied(mem[w], base, rela[CHOOSE k \in RelaTargets(rela) : rela[k].off = w].addend)
         ELSE IF \E k \in RelTargets(rel) : rel[k].off = w
-        THEN mem[w] + base
+        THEN RelApplied(mem[w], base)
         ELSE mem[w]]
 \* every word is the target of at most one RELATIVE entry (what link editors produce)
 TargetsDistinct(rel, rela) ==
